@@ -49,10 +49,18 @@ def ext_thread(eng, res, rule="R-EXT-THREAD"):
             ok = isinstance(a, ast.Name) and a.id == ext and not eng.flow(m).is_local(ext) or (isinstance(a, ast.Name) and a.id == ext and all(
                 d.kind == "param" for d in eng.flow(m).reaching(ext, eng.flow(m).cfg.node_of(c))))
             res.ob(rule, m, f"child:{src(c.func.value)}", "a child is printed with exactly the caller's `extension` flag", c, ok, f"flag passed: {src(a) if a is not None else None}")
-        # str(x) inside a printer prints with extensions regardless of the flag
-        for c in calls(m, "str"):
+        # str(child) / an f-string hole {child} prints a notation object with extensions regardless of the flag
+        notation = {c.name for c in eng.prog.subclasses("BigSMILESbase", strict=False)}
+        holes = [(c.args[0], c) for c in calls(m, "str") if c.args]
+        holes += [(v.value, v) for js in own_nodes(m.node) if isinstance(js, ast.JoinedStr) for v in js.values if isinstance(v, ast.FormattedValue)]
+        for e, site in holes:
+            ts = eng.infer(e, m)
+            kids = sorted(t[1] for t in ts if t[0] == "inst" and t[1] in notation)
+            if isinstance(e, ast.Name) and e.id == "self":
+                kids = ["self"]
             n += 1
-            res.ob(rule, m, f"str:{src(c.args[0]) if c.args else ''}", "no child is printed through str() (which always prints extensions)", c, False, "str(child) ignores the flag")
+            res.ob(rule, m, f"str:{src(e)[:40]}", "no child object is printed through str() / an f-string hole (both always print extensions)", site, not kids,
+                   f"{src(e)} is a {'/'.join(kids)} printed through its __str__: the caller's flag is ignored")
     # __str__ = generate_string(True)
     base = eng.prog.cls("BigSMILESbase")
     s = base.method("__str__")
@@ -355,6 +363,25 @@ class _Subst(ast.NodeTransformer):
                 return ast.Name("__d", ast.Load())
         return self.generic_visit(n)
 
+    def boolean(self, e):
+        """emptiness written without len() in a boolean position: `if self._elements`, `if not token.bond_descriptors`"""
+        if isinstance(e, ast.BoolOp):
+            e.values = [self.boolean(v) for v in e.values]
+            return e
+        if isinstance(e, ast.UnaryOp) and isinstance(e.op, ast.Not):
+            e.operand = self.boolean(e.operand)
+            return e
+        if isinstance(e, ast.Attribute) and isinstance(e.value, ast.Name):
+            if e.attr == "_elements" and e.value.id == "self":
+                return ast.Name("__n", ast.Load())
+            if e.attr == "bond_descriptors" and self.fl.is_local(e.value.id):
+                return ast.Name("__d", ast.Load())
+        return e
+
+    def visit_IfExp(self, n):
+        n.test = self.boolean(n.test)
+        return self.generic_visit(n)
+
     def visit_Name(self, n):
         if n.id in ("__n", "__d") or not self.fl.is_local(n.id):
             return n
@@ -423,7 +450,7 @@ def insert_conditions(eng, res, rule="R-INSERT-COND"):
             if not isinstance(st, ast.If):
                 continue
             sub = _Subst(fl, gn)
-            t = sub.visit(copy.deepcopy(cfg.test_of(st, gn)))
+            t = sub.visit(sub.boolean(copy.deepcopy(cfg.test_of(st, gn))))
             names = {x.id for x in ast.walk(t) if isinstance(x, ast.Name)}
             if names and names <= {"__n", "__d"}:
                 conj.append((t, label == "T"))
